@@ -189,7 +189,7 @@ static void gamma_grid(unsigned long long& unit)
 static std::vector<double> a_grid()
 {
 	std::vector<double> as;
-	int na = mc::thorough() ? 400 : 40;
+	int na = mc::thorough() ? 1000 : 40;
 	for(int i = 0; i < na; i++) as.push_back(std::pow(10.0, -3 + 7.0 * i / (na - 1)));	// 1e-3 .. 1e4
 	for(double d : {1e-9, 1e-3, 0.5}) { as.push_back(100 - d); as.push_back(100 + d); }
 	as.push_back(100);
@@ -202,7 +202,7 @@ static std::vector<double> a_grid()
 static void incomplete(unsigned long long& unit)
 {
 	auto as = a_grid();
-	int nx	= mc::thorough() ? 2000 : 200;
+	int nx	= mc::thorough() ? 4000 : 200;
 	mc::alphabet("a_values", as.size());
 	mc::alphabet("x_values_per_a", nx + 10);
 	long long cases = 0, unresolved = 0;
